@@ -366,8 +366,13 @@ func impossibleAt(call *ssa.Call, conds []paramRel) (bool, string) {
 }
 
 func runDiscardGuard(p *Program, r *Report, a *verifyAnchors) {
+	runDiscardGuardIn(p, r, a, "R04b", a.vc, "the verification closure", 4)
+}
+
+// runDiscardGuardIn applies the discarded-error rule to a closure of functions.
+func runDiscardGuardIn(p *Program, r *Report, a *verifyAnchors, rule string, scope map[*ssa.Function]bool, what string, floor int) {
 	n := 0
-	for _, fn := range sortedFuncs(p, a.vc) {
+	for _, fn := range sortedFuncs(p, scope) {
 		for _, sc := range callsIn(p, fn) {
 			cc := sc.call.Common()
 			if errorResultIndex(cc.Signature()) < 0 {
@@ -385,28 +390,53 @@ func runDiscardGuard(p *Program, r *Report, a *verifyAnchors) {
 			// 1. generic: the callee's error condition over its parameters is excluded by a guard
 			if conds, ok := errorConds(p, callee, 0); ok {
 				if imp, why := impossibleAt(sc.call, conds); imp {
-					r.Discharge("R04b", key, posOf(p, sc.call), "discarded error cannot be non-nil here: "+why, true)
+					r.Discharge(rule, key, posOf(p, sc.call), "discarded error cannot be non-nil here: "+why, true)
 					continue
 				}
 			}
 			// 2. lemma: behind a successful verification of the same values
 			if callee != nil && a.spine[callee] {
 				if j, why := discardJustified(p, sc.call, a); j {
-					r.Discharge("R04b", key, posOf(p, sc.call), "discarded error cannot be non-nil here: "+why, true)
+					r.Discharge(rule, key, posOf(p, sc.call), "discarded error cannot be non-nil here: "+why, true)
 					continue
 				}
 			}
 			// 3. lemma: calcNextPosition(x, d, rows) cannot fail under isAncestor(Parent(d, rows), x, rows)
 			if callee != nil && ancestorLemma(p, sc.call) {
-				r.Discharge("R04b", key, posOf(p, sc.call),
+				r.Discharge(rule, key, posOf(p, sc.call),
 					"discarded error cannot be non-nil here: the call is control-dependent on isAncestor(Parent(d), x), which implies row(d) >= row(x) (reviewed lemma)", true)
 				continue
 			}
-			r.Violate("R04b", key, posOf(p, sc.call),
-				"an error is discarded inside the verification closure and no dominating guard excludes the callee's error condition (a failure would be silently ignored, e.g. a loop bound that is never reached)", "in "+p.FuncName(fn))
+			// 4. reviewed beliefs, one per (caller, callee): valid as long as the callee has the
+			// number of failing returns that was reviewed.
+			if callee != nil {
+				if rb, ok := reviewedDiscards[p.FuncName(fn)+"->"+p.FuncName(callee)]; ok {
+					if n := len(errorReturns(callee)); n == rb.errReturns {
+						r.Discharge(rule, key, posOf(p, sc.call), "discarded error cannot be non-nil here (reviewed): "+rb.why, true)
+						continue
+					} else {
+						r.Violate(rule, key, posOf(p, sc.call), fmt.Sprintf("the error of %s is discarded on the reviewed belief that it cannot fail here, but the callee now has %d failing returns instead of the %d reviewed: the new failure would be silently ignored and a zero result used", p.FuncName(callee), n, rb.errReturns), "in "+p.FuncName(fn))
+						continue
+					}
+				}
+			}
+			r.Violate(rule, key, posOf(p, sc.call),
+				"an error is discarded inside "+what+" and no dominating guard excludes the callee's error condition (a failure would be silently ignored, e.g. a loop bound that is never reached)", "in "+p.FuncName(fn))
 		}
 	}
-	r.Floor("R04b", "discarded errors in the verification closure", n, 4)
+	r.Floor(rule, "discarded errors in "+what, n, floor)
+}
+
+// reviewedDiscards: discarded errors that no guard excludes but that were
+// reviewed, keyed by caller->callee, with the number of failing returns the
+// callee had when reviewed.
+type reviewedDiscard struct {
+	errReturns int
+	why        string
+}
+
+var reviewedDiscards = map[string]reviewedDiscard{
+	"getNewPositions->DetectOffset": {1, "both arguments are positions of the forest with numLeaves leaves - the block's targets and the positions of the cached proof, which verifies against that state (precondition of Update); a position moved by calcNextPosition stays inside its tree"},
 }
 
 // ancestorLemma: call f(x, d, rows) whose error condition is row(d) < row(x)
@@ -418,22 +448,29 @@ func ancestorLemma(p *Program, call *ssa.Call) bool {
 	}
 	// callee shape: its failing return is guarded by a comparison of two results of
 	// the same row-detecting function applied to param1 and param0.
-	shape := false
-	for _, ret := range errorReturns(callee) {
-		for _, gd := range guardsAt(ret.Block()) {
-			rel, ok := relOf(gd)
-			if !ok {
-				continue
-			}
-			cx, okx := rel.X.(*ssa.Call)
-			cy, oky := rel.Y.(*ssa.Call)
-			if okx && oky && cx.Common().StaticCallee() != nil && cx.Common().StaticCallee() == cy.Common().StaticCallee() {
-				shape = true
+	// EVERY failing return has to have that shape: a further error path (say a bound on
+	// the target row) is not excluded by the ancestor test.
+	ers := errorReturns(callee)
+	if len(ers) == 0 {
+		return false
+	}
+	for _, ret := range ers {
+		shape := false
+		// the innermost guard decides this return: it has to be the row comparison
+		gs := guardsAt(ret.Block())
+		if len(gs) > 0 {
+			gd := innermostGuard(gs)
+			if bo, ok := gd.Cond.(*ssa.BinOp); ok && gd.Truth {
+				cx, okx := bo.X.(*ssa.Call)
+				cy, oky := bo.Y.(*ssa.Call)
+				if okx && oky && cx.Common().StaticCallee() != nil && cx.Common().StaticCallee() == cy.Common().StaticCallee() {
+					shape = true
+				}
 			}
 		}
-	}
-	if !shape {
-		return false
+		if !shape {
+			return false
+		}
 	}
 	x, d, rows := call.Common().Args[0], call.Common().Args[1], call.Common().Args[2]
 	for _, gd := range guardsAtInstr(call) {
@@ -1370,4 +1407,15 @@ func onlyBehindVerify(p *Program, fn *ssa.Function, a *verifyAnchors) (bool, str
 		return false, ""
 	}
 	return true, fmt.Sprintf("%s runs inside the verification closure only behind a successful %s on the same values", p.FuncName(fn), p.FuncName(a.verify))
+}
+
+// innermostGuard: the guard whose branch is dominated by all the others.
+func innermostGuard(gs []guard) guard {
+	best := gs[0]
+	for _, g := range gs[1:] {
+		if best.If.Block().Dominates(g.If.Block()) {
+			best = g
+		}
+	}
+	return best
 }
